@@ -11,8 +11,10 @@ _ctr = itertools.count()
 
 
 def fresh(prefix, sort):
-    """Fresh z3 constant"""
-    return z3.Const("%s!%d" % (prefix, next(_ctr)), sort)
+    """Fresh z3 constant (the name goes through SMT-LIB text: characters a |quoted| symbol cannot hold, and the quote
+    z3's printer leaves bare, are spelled out)"""
+    safe = "".join(c if c.isalnum() or c in "._[]{}()<>-+*=:," else "~%02x" % ord(c) for c in str(prefix))
+    return z3.Const("%s!%d" % (safe, next(_ctr)), sort)
 
 
 S = z3.StringSort()
